@@ -217,7 +217,7 @@ def run(eng, ctx, reader_side=True):
     # ---------------- D5 readline
     ctx.rule("C11.D5", "readline: loop over read(1); every byte read is appended; stops after CRLF or at an empty read; returns everything consumed")
     sl = eng.symeval(rl.qualname)
-    loops = list(sl.loop_info.items())
+    loops = [(lid, info) for lid, info in sl.loop_info.items() if not info.get("comp")]
     ctx.check(len(loops) == 1, "C11.D5", rl.qualname, "one loop", expected="1", found=str(len(loops)), **eng.loc(rl, rl.node))
     if len(loops) == 1:
         lid, info = loops[0]
@@ -250,11 +250,18 @@ def run(eng, ctx, reader_side=True):
                 return t[0] == "slice" and t[1] in allowed and t[2] == ("const", -2) and t[3] == ("const", None) and t[4] == ("const", None)
 
             after = ("bin", "+", ("loop", lid, var), d)
-            crlf = any(any(c[0] == "cmp" and c[1] == "==" and pol and c[3] == ("const", b"\r\n") and last2(c[2], (after,)) for c, pol in st.guards) for st in brk)
+            def crlf_lit(c, pol, allowed):
+                if c[0] == "cmp" and c[1] == "==" and pol and c[3] == ("const", b"\r\n") and last2(c[2], allowed):
+                    return True
+                return c[0] == "call" and c[2][0] == "attr" and c[2][2] == "endswith" and c[2][1] in allowed and c[3] == (("const", b"\r\n"),) and pol
+
+            crlf = any(any(crlf_lit(c, pol, (after,)) for c, pol in st.guards) for st in brk)
             tst = info.get("test")
             crlf_in_test = tst is not None and tst[0] == "cmp" and tst[1] == "!=" and tst[3] == ("const", b"\r\n") and last2(tst[2], (("loop", lid, var),))
-            ctx.check(crlf_in_test or (tst is not None and is_const(tst) and bool(tst[1])), "C11.D5", rl.qualname, "loop condition", expected="`while True` (left by the breaks) or the CRLF test itself", found=show(tst)[:60] if tst else "?", **eng.loc(rl, info["node"]))
-            empty_brk = any(_empty_implied(st.guards, d) for st in brk)
+            # the loop condition may also be "the byte just read is there" (`while len(data := self.read(1)) == 1`): leaving on a false test is the empty-read exit
+            nonempty_test = tst is not None and not is_const(tst) and _empty_implied(((tst, False),), d) and not _empty_implied(((tst, True),), d)
+            ctx.check(crlf_in_test or nonempty_test or (tst is not None and is_const(tst) and bool(tst[1])), "C11.D5", rl.qualname, "loop condition", expected="`while True` (left by the breaks), the CRLF test, or the test that a byte was read", found=show(tst)[:60] if tst else "?", **eng.loc(rl, info["node"]))
+            empty_brk = any(_empty_implied(st.guards, d) for st in brk) or nonempty_test
             ctx.check((crlf or crlf_in_test) and empty_brk, "C11.D5", rl.qualname, "termination", expected="stops at CRLF (break or loop test) and at an empty read (break)",
                       found=f"{len(brk)} break(s), CRLF break: {crlf}, CRLF in loop test: {crlf_in_test}, empty-read break: {empty_brk}", **eng.loc(rl, info["node"]))
         else:
